@@ -2,6 +2,7 @@ package main
 
 import (
 	"fmt"
+	"path/filepath"
 	"strings"
 )
 
@@ -14,6 +15,17 @@ func init() {
 		}
 	}
 	streams["C06"] = func(c *Ctx) {
+		{
+			dr := StartDriver(c.DriverBin)
+			ok := true
+			for _, be := range backendsAll {
+				ok = ok && dataInterleavings(c, dr, be)
+			}
+			dr.Close()
+			if !ok {
+				return
+			}
+		}
 		streamHistories(c, HistCfg{Ops: 30, QueriesPer: 1, Indexes: true, Dumps: true, Malformed: true}, "dumps")
 	}
 }
@@ -407,7 +419,30 @@ var searchMode = false
 
 // reportHistoryProblem reports what a history run found; true = a concrete violation was reported (the stream
 // stops), false = only a correspondence broke (recorded; the stream goes on in search mode)
+var retryDirs int
+
 func reportHistoryProblem(c *Ctx, dr *Driver, im *Impl, lines []J, o *HistoryOutcome, be string, opts HistOpts, stream string) bool {
+	if strings.Contains(o.Detail, "timeout") || strings.Contains(o.Detail, "blocked") {
+		// an operation that did not return within the deadline: on a busy machine a commit can stall on the disk for
+		// longer than that. The same history is executed once more on a fresh database with four times the deadline;
+		// an operation that really blocks does so again, and only then is it reported
+		old := OpDeadline
+		OpDeadline = 4 * old
+		// (directories of their own: the handle that did not return still holds its files open and locked)
+		retryDirs++
+		fresh := NewImpl(be, filepath.Join(c.Scratch, fmt.Sprintf("retry-%d", retryDirs)))
+		o4 := runHistory(dr, fresh, lines[:o.Index+1], opts)
+		fresh.Destroy()
+		OpDeadline = old
+		if o4.Index < 0 {
+			c.Count("timeout-not-reproduced")
+			return false
+		}
+		*o = o4
+		retryDirs++
+		im = NewImpl(be, filepath.Join(c.Scratch, fmt.Sprintf("retry-%d", retryDirs)))
+		defer im.Destroy()
+	}
 	if o.Kind != "spec" {
 		// a correspondence broke (model and implementation differ while the oracle held so far): search the
 		// whole history with the property's own oracles for a concrete failing input before giving up
